@@ -47,6 +47,10 @@ class FEval:
             v = math.cos(self.ev(d[1]))
         elif kind == 'atan2':
             v = math.atan2(self.ev(d[1]), self.ev(d[2]))
+        elif kind == 'atan':
+            v = math.atan(self.ev(d[1]))
+        elif kind == 'asin':
+            v = math.asin(max(-1.0, min(1.0, self.ev(d[1]))))
         elif kind == 'acos':
             v = math.acos(self.ev(d[1]))
         elif kind == 'wind':
